@@ -123,7 +123,7 @@ def scenario(sh: Shard, seed, idx):
                 sh.violation("C15:threaded:descriptor-not-intact", f"descriptor ({d.identifier!r}, {d.name!r}, {d.ipaddress}) matches no responder", wit)
         if dur > T_MAX + slack:
             sh.violation("C15:threaded:over-timeout", f"blocking discovery took {dur:.2f}s (timeout {T_MAX}s)", wit)
-        if dur > 1.5 and not any(rec["verb"] == "HELLO" and rec["data"] == b"<HELLO>1</HELLO>" for rec in net.log):
+        if dur > 1.5 and not any(d_ == b"<HELLO>1</HELLO>" for x in net.created if getattr(x, "implicit", False) for _, d_, _ in x.sent):
             sh.violation("C15:threaded:no-hello-sent", f"blocking discovery ran {dur:.2f}s without a single hello leaving its socket", wit)
         if target is not None and target["ident"] in first_arrival and first_arrival[target["ident"]] - t0 < T_MAX - slack:
             if dur > first_arrival[target["ident"]] - t0 + slack:
